@@ -74,9 +74,8 @@ def finish(ctx, level, explanation, trusted_base, assumptions, checker_cmd):
     known = load_known()
     out_lines = []
     # floors: a rule that matched too few sites must not pass vacuously
-    for rule, what, count, minimum in ctx.floors:
-        if count < minimum:
-            raise prep.AnalysisBroken("%s: %s = %d, below the confirmed floor %d" % (rule, what, count, minimum))
+    floor_fail = ["%s: %s = %d, below the confirmed floor %d" % (rule, what, count, minimum)
+                  for rule, what, count, minimum in ctx.floors if count < minimum]
     failed = [o for o in ctx.obligations if not o["ok"]]
     # de-duplicate identical keys (same instance reported twice)
     seen = set()
@@ -93,6 +92,11 @@ def finish(ctx, level, explanation, trusted_base, assumptions, checker_cmd):
             knowns.append(o)
         else:
             viols.append(o)
+    if floor_fail and not viols:
+        # nothing concrete to report, and the rule saw fewer sites than confirmed by hand
+        raise prep.AnalysisBroken("; ".join(floor_fail))
+    for ff in floor_fail:
+        out_lines.append("note: " + ff)
     for o in knowns:
         out_lines.append("KNOWN-FINDING: property=%s %s at %s: %s" % (prop, o["key"], o["site"], o["detail"]))
     stale = [k for (p, k) in known if p == prop and k not in {o["key"] for o in failed}]
